@@ -168,11 +168,11 @@ func (h *hooks) ResolveType(abstract string, p graphql.ResolveTypeParams) string
 	d, ok := h.rtDec[key]
 	if !ok {
 		if h.x != nil {
-			d = h.x.Dev(3, "resolve-type")
+			d = h.x.Dev(4, "resolve-type")
 		}
 		h.rtDec[key] = d
 		if d != 0 {
-			h.troubles = append(h.troubles, trouble{path: path, what: [...]string{"", "ResolveType returns nil", "ResolveType returns a non-member"}[d]})
+			h.troubles = append(h.troubles, trouble{path: path, what: [...]string{"", "ResolveType returns nil", "ResolveType returns a non-member", "ResolveType panics"}[d]})
 		}
 	}
 	switch d {
@@ -180,6 +180,8 @@ func (h *hooks) ResolveType(abstract string, p graphql.ResolveTypeParams) string
 		return ""
 	case 2:
 		return "B"
+	case 3:
+		panic(fmt.Errorf("RT@%s", path))
 	}
 	if o, ok := p.Value.(*model.Obj); ok && o != nil {
 		return o.Type
